@@ -34,7 +34,7 @@ extern "C" int h_c09_set() {
 static void dump_tree(const ezc3d::c3d& c, const char* tag) { __vp_tag(tag); dump_params(c); }
 extern "C" int h_c09_tree() {
   const int depth = __vp_cfg("depth"), start = __vp_cfg("start");
-  ezc3d::c3d* c = start == 1 ? new ezc3d::c3d("in.c3d") : new ezc3d::c3d();
+  ezc3d::c3d* c = start >= 1 ? new ezc3d::c3d("in.c3d") : new ezc3d::c3d();
   for (int k = 0; k < depth; ++k) {
     dump_tree(*c, "before");
     unsigned op = __vp_choice("op", 7);
@@ -44,20 +44,21 @@ extern "C" int h_c09_tree() {
       if (op <= 3) {
         // add/replace a parameter: op 0: FORCE_PLATFORM + symbolic name (may equal an existing name), 1: FORCE_PLATFORM:ZERO (replace, other type),
         // 2: new group, 3: new group twice the same name (second replaces)
-        std::string nm = op == 0 ? sym_str("pname", __vp_cfg("nlen")) : op == 1 ? std::string("ZERO") : std::string("Fresh");
+        const bool dupfile = start == 2;     // start 2: a loaded file that declares two groups named EXTRA
+        std::string nm = op == 0 ? sym_str("pname", __vp_cfg("nlen")) : op == 1 ? std::string(dupfile ? "INTS" : "ZERO") : std::string("Fresh");
         Param p(nm, sym_str("pdesc", 2, 1));
         unsigned kind = op == 0 ? (unsigned)__vp_cfg("kind") : op;
         if (kind % 3 == 0) p.set(std::vector<int>() = {(int)(short)__vp_sym_u16("iv"), (int)(short)__vp_sym_u16("iv")});
         else if (kind % 3 == 1) p.set(std::vector<float>() = {__vp_sym_f32("fv")}, std::vector<size_t>() = {1, 1});
         else p.set(std::vector<std::string>() = {sym_str("sv", 2), sym_str("sv", 1)});
         if (__vp_sym_u8("lock") & 1) p.lock();
-        const char* grp = op <= 1 ? "FORCE_PLATFORM" : "NewGroup";
+        const char* grp = op <= 1 ? (dupfile ? "EXTRA" : "FORCE_PLATFORM") : "NewGroup";
         __vp_obs_bytes("group", grp, strlen(grp));
         __vp_tag("given"); dump_param(p, false);
         c->parameter(grp, p);
         __vp_tag("lookup"); dump_param(c->parameters().group(grp).parameter(nm), false);
-      } else if (op == 4) c->lockGroup("FORCE_PLATFORM");
-      else if (op == 5) c->unlockGroup("FORCE_PLATFORM");
+      } else if (op == 4) c->lockGroup(start == 2 ? "EXTRA" : "FORCE_PLATFORM");
+      else if (op == 5) c->unlockGroup(start == 2 ? "EXTRA" : "FORCE_PLATFORM");
       else if (op == 6) c->lockGroup("ANALOG");
     } catch (...) { out = classify(); }
     __vp_tag("outcome"); __vp_obs_u64("outcome", out);
